@@ -53,6 +53,18 @@ def cfg_list(tier, seed):
             c = {"kind": "sim", "algo": "priority", "workload": {"type": "script", "arrivals": arrivals},
                  "params": {"duration": 120 / tps, "ticks_per_second": tps, "num_pools": 1, "cpus_per_pool": 10,
                             "ram_gb_per_pool": 10, "multi_operator_containers": True}}
+        elif i == 7:
+            # directed: ten identical 3-operator containers reach their operator boundary in the same tick while four
+            # queries wait -> four suspensions issued in one round, four one-tick write-outs ending in the same tick
+            tps = 5
+            mk = lambda pid, prio, n: {"pid": pid, "prio": prio, "ops": [
+                {"parents": [k - 1] if k else [], "segs": [{"cpu": 3.5 / tps, "law": "const", "mem": 0.05, "read": 0.0}]} for k in range(n)]}
+            arrivals = {"0": [mk(f"b{j}", "BATCH_PIPELINE", 3) for j in range(12)],
+                        "2": [mk(f"q{j}", "QUERY", 1) for j in range(4)],
+                        "20": [mk(f"late{j}", "INTERACTIVE", 2) for j in range(6)]}
+            c = {"kind": "sim", "algo": "priority", "workload": {"type": "script", "arrivals": arrivals},
+                 "params": {"duration": 200 / tps, "ticks_per_second": tps, "num_pools": 1, "cpus_per_pool": 10,
+                            "ram_gb_per_pool": 10, "multi_operator_containers": True}}
         elif i % 6 == 1:
             # identical multi-operator pipelines: operator boundaries coincide, several suspensions end in one tick
             c = _sim.preemption_case(rng, algo="priority", oom=False, identical=True)
